@@ -418,6 +418,37 @@ def real_runs(ctx, n_runs, budget_s):
             if nchunks >= 2 and base.status == 0:
                 ctx.nontriv("real:" + hashlib.sha1(repr((argv, inputs, cores)).encode()).hexdigest()[:16])
     ctx.notes.append(f"real multi-process runs: {done} in {time.time() - t0:.1f}s")
+    big_chunk_run(ctx)
+
+
+def big_chunk_run(ctx):
+    """chunks of the size the program uses by default and more (a --buffer-size of 18 MB, long reads): every worker handles several chunks, each
+    of them larger than anything the small cases produce; outputs and info file must be those of the single-core run"""
+    rng = ctx.rng
+    unit = pipe.rs(rng, 200)
+    ad = "AAAGGGCCCTTTGATC"
+    recs = []
+    for i in range(4300):
+        s_ = pipe.rs(rng, 40) + unit * 49 + (ad if i % 3 == 0 else "") + pipe.rs(rng, 7)
+        recs.append(f"@big{i}\n{s_}\n+\n{'I' * len(s_)}\n")
+    text = "".join(recs)
+    argv = ["--buffer-size", "18000000", "-a", "a0=" + ad, "--info-file", "{dir}/info.txt", "-o", "{dir}/o1.fastq", "{dir}/in.fastq"]
+    inputs = {"in.fastq": text}
+    base = clirun.run_cli(argv, inputs, want_json=False)
+    r = clirun.run_cli(argv, inputs, want_json=False, cores=2)
+    ctx.evaluations += 2
+    ctx.count("real-processes:big-chunks")
+    inp = dict(kind="real-big-chunks", argv=argv, reads=len(recs), read_length=len(recs[0]) // 2, input_bytes=len(text), cores=2)
+    if base.status != 0 or r.status != 0:
+        ctx.failures.append(Failure("C06/status-differs", "a run with 18 MB chunks fails", inp, [base.status, r.status], [0, 0]))
+        return
+    for fn in ("o1.fastq", "info.txt"):
+        a, b = base.files.get(fn, b""), r.files.get(fn, b"")
+        if a != b:
+            ctx.failures.append(Failure("C06/output-differs-from-single-core", f"{fn} of the 2-core run with 18 MB chunks differs from the single-core run "
+                                        f"({len(b)} bytes instead of {len(a)})", inp, len(b), len(a)))
+            return
+    ctx.nontriv("real-big-chunks")
 
 
 # ------------------------------------------------------------------------------------------------
